@@ -21,7 +21,7 @@ UNITS = {
               "fn_props": {**PRELUDE_FNS, "get_line|get_newline_before|get_err_pos|lemma_.*": ["C16", "C09"]},
               "assumes": ["unit lexer: precondition `wf` (newline positions strictly increasing, inside the text, text at most isize::MAX bytes) is what LexerHelper::new establishes; `new` itself (char_indices over a &str) is only under the BOUNDED Kani unit b_lexer_new",
                           "unit lexer: rewrite R13 (`for (i, v) in <place>.iter().enumerate()` -> index loop; <place> is borrowed immutably by the original loop)"]},
-    "numbers": {"tpl": "numbers.rs", "props": ["C14", "C09", "C12", "C17", "C01", "C05"],
+    "numbers": {"tpl": "numbers.rs", "props": ["C14", "C09", "C12", "C17", "C01", "C05", "C11"],
                 "fn_props": {**PRELUDE_FNS, "nm_pp_.*": ["C14", "C09"], "nm_it_.*": ["C01", "C05", "C09"], "nm_ld_.*": ["C12", "C09"], "nm_pr_.*": ["C17", "C09"]},
                 "assumes": ["unit numbers: ASSUMED contract of std's {u8,u16,i8,i16,u32,usize}::from_str_radix: for a well-formed digit string (what the literal token's regular expression admits) the result is Ok(v) iff the mathematical value of the text fits the type, and v is that value; the value of a text is an uninterpreted function. The bounded Kani units b_pp_* run the real from_str_radix on every literal of bounded length (cross-check of this assumption)",
                             "unit numbers: the token text is ASCII with at least one digit after its prefix (the token's regular expression; the generated lexer is trusted)"]},
@@ -35,7 +35,7 @@ UNITS = {
     "transfer": {"tpl": "transfer.rs", "props": ["C08", "C14", "C04", "C12", "C18"],
                  "fn_props": {**PRELUDE_FNS, "it_call|it_ret": ["C08", "C14"], "it_jumps_loops": ["C08", "C14"],
                               "it_int": ["C14", "C18"], "it_byte_label|it_word_label": ["C04", "C12", "C14"], "get_type": ["C08", "C14"]}},
-    "assembler": {"tpl": "assembler.rs", "props": ["C08", "C12", "C14", "C16", "C18"],
+    "assembler": {"tpl": "assembler.rs", "props": ["C08", "C12", "C14", "C16", "C18", "C01", "C02", "C03", "C04", "C05", "C06", "C07", "C11", "C17"],
                   "fn_props": {**PRELUDE_FNS, "em_\\d+": ["C08", "C16"], "as_proc_def|as_call|as_jmps_loops|as_label": ["C08", "C14"],
                                "as_procedure": ["C08", "C16"], "glue_em_\\d+": ["C14"], "as_int": ["C14", "C18"], "as_offset": ["C12", "C14"],
                                "as_byte_label|as_word_label|as_unsupported|as_offset_as_byte": ["C14"], "as_d[bw]_.*|as_set|advance_data_counter": ["C12", "C14"], "add_entry": ["C16"], "new|get_type": ["C08", "C14"]}},
@@ -178,11 +178,107 @@ def assembler_emitters(ex) -> str:
         m = re.search(r"context\.mapper\.add_entry\((\w+)\)", body)
         seen.add(p.user_action)
         k += 1
-        out.append(f"//@action {rel} {p.sig} as em_{k}\n//@contract\n" + (EMIT_CONTRACT % m.group(1)) + "//@end\n")
+        contract = EMIT_CONTRACT % m.group(1)
+        units, tprops = emitted_text_spec(p, a)
+        if units is not None:
+            contract += (f"        // the emitted line, as the interpreter's lexer sees it, is the source instruction in the interpreter's syntax\n"
+                         f"        toks(final(out).code@.last()@) == {ex.tok_expr(units)}, //# {','.join(tprops)} asm.emitted_line_is_the_source_instruction_in_the_interpreters_syntax\n")
+            out.append(f"//@action {rel} {p.sig} as em_{k}\n//@contract\n//@fmttoks\n" + contract + "//@end\n")
+        else:
+            NO_TEXT_SPEC.append(p.sig)
+            out.append(f"//@action {rel} {p.sig} as em_{k}\n//@contract\n" + contract + "//@end\n")
         g = immediate_glue(p, a, k)
         if g:
             out.append(g)
     return "\n".join(out), k
+
+
+NO_TEXT_SPEC = []
+# ---- what the lowered line must be (C01-C08, C11, C17, C18), derived from the SOURCE FORM of the production (its signature) and
+# the interpreter's syntax, never from the action: mnemonic, then the operands in source order separated by `,`; a memory or
+# data-label operand carries its size keyword; constants in decimal.  Names are those of the pinned grammar; a symbol the
+# table does not know => no text obligation for that production (listed in the evidence), never an alarm.
+MNEMONIC_OF = {"quote_mov": "mov", "quote_xchg": "xchg", "quote_lea": "lea", "quote_not": "not", "quote_pop": "pop", "quote_push": "push",
+               "quote_call": "call", "quote_int": "int", "quote_ret": "ret", "quote_repeat": "rep", "quote_print": "print",
+               "quote_mem": "mem", "quote_flags": "flags", "quote_reg": "reg", "quote_byte_length": "byte", "quote_word_length": "word",
+               "reg_cl": "cl", "cs_reg": "cs"}
+TEXT_OPERANDS = {"gen_byte_reg", "gen_word_reg", "gen_reg", "seg_reg", "pop_reg", "memory_addr", "name_string",
+                 "string_condition_repeat_opcode", "string_repeat_opcode"}
+NUMBER_OPERANDS = {"u_byte_num", "s_byte_num", "u_word_num", "s_word_num", "raw_addr"}
+TEXT_PROPS = {"binary_arithmetic": ["C01"], "unary_arithmetic": ["C01", "C03"], "singleton_arithmetic": ["C03"], "binary_logical": ["C02"],
+              "not": ["C02"], "shift_rotate": ["C02"], "mov": ["C05"], "xchg": ["C05"], "push": ["C05"], "pop": ["C05"],
+              "singleton_data_transfer": ["C05"], "lea": ["C04"], "string": ["C07"], "string_repeat": ["C07"], "string_condition_repeat": ["C07"],
+              "jmps_loops": ["C06", "C08"], "call": ["C08"], "ret": ["C08"], "control_supported": ["C08"], "procedure": ["C08"],
+              "int": ["C18"], "print_stmt": ["C17"]}
+
+
+def emitted_text_spec(p, a):
+    """(units, properties) for the text an emitting production must produce, or (None, None)"""
+    props = TEXT_PROPS.get(p.nt)
+    if props is None:
+        return None, None
+    if p.nt == "procedure":
+        return [("L", "ret")], props          # the return implied by the closing brace
+    tup = [(pat, ty) for pat, ty in a.params if pat.startswith("(")]
+    # <start:@L> / <end:@R> are handed over as (usize, usize, usize) triples in front of / behind the symbols
+    if len(tup) == len(p.syms) + 2:
+        tup = tup[1:-1]
+    elif len(tup) == len(p.syms) + 1:
+        tup = tup[1:]
+    if len(tup) != len(p.syms):
+        return None, None
+    def name(i):
+        inner = [x.strip() for x in tup[i][0].strip("()").split(",")]
+        return inner[1] if len(inner) == 3 and inner[1] != "_" else None
+    def is_string(i):
+        return re.fullmatch(r"\(\s*usize\s*,\s*(?:alloc::string::)?String\s*,\s*usize\s*\)", tup[i][1].strip()) is not None
+    ops = []      # operand groups, each a unit list; "," separates
+    cur = []
+    head = None
+    for i, sy in enumerate(p.syms):
+        if i == 0 and sy.startswith("quote_") or (i == 0 and sy in ("string_condition_repeat_opcode", "string_repeat_opcode")):
+            if sy in MNEMONIC_OF:
+                head = [("L", MNEMONIC_OF[sy])]
+            elif is_string(i) and name(i):
+                head = [("P", name(i))]
+            else:
+                return None, None
+            continue
+        if sy == '","':
+            ops.append(cur)
+            cur = []
+        elif sy.startswith('"') and sy.endswith('"'):
+            cur += [("L", t) for t in re.findall(r"[A-Za-z0-9_]+|[^\sA-Za-z0-9_]", sy[1:-1].lower())]
+        elif sy in MNEMONIC_OF:
+            cur.append(("L", MNEMONIC_OF[sy]))
+        elif sy in ("byte_label", "word_label"):
+            if not name(i):
+                return None, None
+            cur += [("L", sy.split("_")[0]), ("P", name(i))]
+        elif sy in TEXT_OPERANDS or (sy.startswith("quote_") and is_string(i)):
+            if not name(i):
+                return None, None
+            cur.append(("P", name(i)))
+        elif sy in NUMBER_OPERANDS:
+            if not name(i):
+                return None, None
+            cur.append(("N", name(i)))
+        else:
+            return None, None
+    ops.append(cur)
+    if head is None:
+        return None, None
+    if p.nt == "xchg" and len(ops) == 2:
+        # XCHG is symmetric and the interpreter knows only the form with the memory operand first
+        is_mem = lambda g: any(u == ("L", "byte") or u == ("L", "word") for u in g)
+        if is_mem(ops[1]) and not is_mem(ops[0]):
+            ops = [ops[1], ops[0]]
+    units = list(head)
+    for j, g in enumerate(ops):
+        if j:
+            units.append(("L", ","))
+        units += g
+    return units, props + ["C11"]
 
 
 # destination operand -> width, by the nonterminal that opens the operand list (names of the pinned grammar; an operand the table
@@ -317,6 +413,16 @@ def run_unit(unit: str, dst: str, root: str):
             raise Undecided(f"lost anchor: print literal {m.group(1)} no longer printed by the functions of unit {unit}")
         return str(ex.literals.index(m.group(1)))
     text = re.sub(r"@LIT\((\"(?:[^\"\\]|\\.)*\"(?:\\n)?)\)", lit_ix, text)
+    # @TOKS(L:db L:[ N:n L:]) in a contract: the token view term (same renderer as rewrite R14 uses for the code's templates)
+    def toks_ix(m):
+        units = []
+        for u in m.group(1).split():
+            k, _, v = u.partition(":")
+            units.append((k, v))
+        return ex.tok_expr(units)
+    text = re.sub(r"@TOKS\(([^()]*)\)", toks_ix, text)
+    if ex.lit_tokens:
+        text = "// literal tokens (extractor rewrite R14): " + "  ".join(f"lit_tok({k})=`{t}`" for k, t in enumerate(ex.lit_tokens)) + "\n" + text
     # literal table for the ghost output log (R2)
     if ex.literals:
         tbl = "\n".join(f"//   out K={k}: {lit}" for k, lit in enumerate(ex.literals))
